@@ -232,11 +232,11 @@ fn build_registry() -> Vec<PropDef> {
         cases_quick: 2_000,
         cases_thorough: 120_000,
         run_case: c11::run_case,
-        rule: "one case = a binary tree with history (<= 120 nodes) and one of {infeasible_elimination, f.compose::<true>(g) with a random total/partial g, a + b with a random total/partial b}. The fault-free run is logged through the LP hook (N calls); then EVERY single-fault plan (call index i < N) x {Error, Unbounded, optimal point pushed 1e-6 outside the tightest row, optimal point moved by 1e3} is executed, then 6 random plans with 2..N faults and the 4 all-calls-faulty plans. Under each plan: the operation must not panic, the result must be well-formed, every cached witness must lie in its exact path polytope and no Infeasible mark may sit on a thick region (C05 oracle), removed nodes must be exactly-classified non-thick regions (C03 audit), and the function must equal the reference (tree before / unpruned composition / exact a(x)+b(x)) on the interior point of every thick cell and on probe inputs ending in thick cells. 'Fewer terminals than the fault-free run' is recorded, not asserted. Non-trivial = at least one plan changed the answer of a live LP call (seen in the hook log); distinct = hash of the case.",
+        rule: "one case = a binary tree with history (<= 120 nodes) and one of {infeasible_elimination, f.compose::<true>(g) with a random total/partial g, a + b with a random total/partial b}. The fault-free run is logged through the LP hook (N calls); then EVERY single-fault plan (call index i < N) x {Error, Unbounded, optimal point pushed 1e-6 outside the tightest row, optimal point moved by 1e3, optimal point moved by 1e12} is executed, then 6 random plans with 2..N faults and the 5 all-calls-faulty plans. Under each plan: the operation must not panic, the result must be well-formed, every cached witness must lie in its exact path polytope and no Infeasible mark may sit on a thick region (C05 oracle), removed nodes must be exactly-classified non-thick regions (C03 audit), and the function must equal the reference (tree before / unpruned composition / exact a(x)+b(x)) on the interior point of every thick cell and on probe inputs ending in thick cells. 'Fewer terminals than the fault-free run' is recorded, not asserted. Non-trivial = at least one plan changed the answer of a live LP call (seen in the hook log); distinct = hash of the case.",
         assumptions: &["faults model the failure modes the code anticipates for its LP backends (error status, unbounded status, point outside the polytope); that a real backend produces exactly these is outside what can be observed here", "a Feasible mark on an empty region is not counted as unsound"],
         watchdog_quick: 600,
         watchdog_thorough: 5400,
-        exhaustive_note: Some("all single-fault positions x 4 fault kinds are enumerated for every case (evidence: fault_plans_executed vs lp_calls_in_fault_free_runs)"),
+        exhaustive_note: Some("all single-fault positions x 5 fault kinds are enumerated for every case (evidence: fault_plans_executed vs lp_calls_in_fault_free_runs)"),
     },
     PropDef {
         id: "C01",
